@@ -64,6 +64,9 @@ class ModeRules:
         self.Bq = self.base['q']
         facs = [f for f in prog.functions.values()
                 if prog.type(f['ret']).get('k') == 'ptr' and prog.type(prog.type(f['ret'])['to']).get('rec') == self.Bq and f.get('rec')]
+        if len(facs) > 1:
+            from wai.facts import outermost
+            facs = outermost(prog, facs)
         if len(facs) != 1:
             raise AnalysisBroken('stream factory not found')
         self.factory = facs[0]
@@ -144,6 +147,7 @@ class ModeRules:
                 for i in range(16):
                     st.mem[(p[1], p[2][:-1] + (p[2][-1] + i,))] = ('tb', ts.unint(tag, ids, i))
                 log.append((tag, show(this)))
+                st.comps['cipher_calls'] = st.comps.get('cipher_calls', ()) + (tag,)
                 return [(st, ('void',))]
             return m
         out = {}
@@ -263,10 +267,12 @@ class ModeRules:
                        'factory(%s,%d) -> %s: one step (block\', iv\') as terms over free block / iv bytes with the block cipher uninterpreted equals SP 800-38A %s %s: %s' % (
                            'enc' if enc else 'dec', typ, cls, NAMES[typ], 'encryption' if enc else 'decryption', 'yes' if ok else 'NO: ' + det))
                 # the block cipher direction and instance used
-                tags = [e[0] for e in log if e[0] in ('E', 'D')]
+                # per path of the step (a step may fork, e.g. on the carries of a counter)
                 wantdir = 'D' if (not enc and typ in (0, 1)) else 'E'
-                rec.ob('R10.d', 'R10.d@%s::cipher-direction' % cls, tags == [wantdir], '%s:%s' % (f['file'], f['line']),
-                       '%s calls the block cipher %s (expected exactly one %s per block)' % (cls, tags, wantdir))
+                per_path = sorted({tuple(s3.comps.get('cipher_calls', ())) for s3, _ in r2}) if r2 else [()]
+                tags = next((list(t_) for t_ in per_path if list(t_) != [wantdir]), [wantdir])
+                rec.ob('R10.d', 'R10.d@%s::cipher-direction' % cls, all(list(t_) == [wantdir] for t_ in per_path), '%s:%s' % (f['file'], f['line']),
+                       '%s calls the block cipher %s (expected exactly one %s per block, on each of %d path(s) of the step)' % (cls, tags, wantdir, len(r2)))
         rec.count('R10.s mode steps', n, 10)
 
     def inverse(self):
